@@ -450,7 +450,7 @@ def check(ctx):
     _check_own(ctx)
     from .engine import import_rules
     # size hints and the end of iteration come from the stored item count: it must step with every insert / delete
-    import_rules(ctx, "c05", {"count-writers", "count-step", "count-arm", "field-position"})
+    import_rules(ctx, "c05", {"count-writers", "count-step", "count-arm", "field-position", "stored-length-read"})
     import_rules(ctx, "c01", {"op-wiring"})
     # the iterator reads the table size from the header; lookups use the cached one: they must be the same number
     import_rules(ctx, "c07", {"stored-count-wins"})
